@@ -14,6 +14,7 @@ def check(ctx):
     F = ctx.facts("prod")
     sides.check_sides(ctx, F)
     mergetab.positions_mapping_table(ctx, F)
+    mergetab.row_scheme_agrees(ctx, F)
     mergetab.call_scheme_agrees(ctx, F)      # the scheme decides which position maps get an entry for a merged stream value
     ctx.clause("R-PAIR one append <-> one recorded state at the four append sites")
     ctx.clause("R-MUST/R-CONST/R-OP add_value ends in check_stream_size_limit; STREAM_MAX_SIZE == 1024; error iff sum >= MAX")
@@ -174,6 +175,33 @@ def check(ctx):
                 "ValuesMatrix::slice_iter is `%s`: the generation cursor (which counts empty generations, see generations_count) is applied AFTER empty generations "
                 "were filtered out, so it overshoots when an empty generation lies below it and stream values appended during a fold are never visited" % show(se)[:220],
                 sample={"slice_iter": show(se)[:220]})
+    # scoped lookup: the read accessor (`get`, used for existence / iteration) and the write accessor (`get_mut`, used by
+    # every append, fold and canon) of a stream / stream-map name resolve to the SAME instance — the innermost enclosing
+    # `new` scope: both walk the descriptors in reverse and take the first whose span contains the position
+    ctx.clause("R-SIBLING scoped lookup: find_closest and find_closest_mut use the same traversal (reverse, first match) for streams and for stream maps")
+    n_pairs = 0
+    for f1 in F.fns.values():
+        if f1.crate != "air" or not f1.path.endswith("::find_closest"):
+            continue
+        sib = F.fns.get(f1.id + "_mut") or next((g for g in F.fns.values() if g.path == f1.path + "_mut"), None)
+        if not ctx.require(sib is not None, "R-SIBLING", "scope-lookup:pair:" + f1.path.split("::")[-2], "find_closest has a _mut sibling", "%s has no find_closest_mut sibling" % f1.path):
+            continue
+        n_pairs += 1
+        def skel(fn):
+            names = []
+            for f_, _p in lib.family(F, fn):
+                for c in f_.calls:
+                    last = c.path.split("::")[-1]
+                    if ("core::iter" in c.path or "Iterator" in c.path) and last in ("rev", "find", "next", "next_back", "last", "nth", "skip", "take", "filter", "position", "rposition", "rfind", "find_map", "max_by_key", "min_by_key"):
+                        names.append(last)
+                    if c.path.endswith("contains_position"):
+                        names.append("contains_position")
+            return sorted(names)
+        a_, b_ = skel(f1), skel(sib)
+        ctx.require(a_ == b_ and "rev" in a_, "R-SIBLING", "scope-lookup:same-traversal:" + f1.path.split("::")[-2], "read and write lookups traverse alike (%s)" % a_,
+                    "%s traverses the scope descriptors with %s but its _mut sibling with %s: reads and writes of one name resolve to different `new` instances" % (f1.path, a_, b_),
+                    sample={"module": f1.path.split("::")[-2], "find_closest": a_, "find_closest_mut": b_})
+    ctx.floor("R-SIBLING", "find_closest/find_closest_mut pairs", n_pairs, 2)
     cst = F.fn("recursive_stream::RecursiveStreamCursor::cursor_state")
     e = Prov(cst).local(0)
     ok = any(s[0] == "call" and s[1].endswith("Stream::slice_iter") and len(s[2]) == 2 and s[2][1][0] == "field" and s[2][1][2] == "cursor" for s in walk(e))
